@@ -30,6 +30,13 @@ theorem C07dae_trees_admissible :
     (DF.levels 5).map (fun L => (L.ys.length, L.zs.length)) = [(0, 0), (1, 1), (2, 5), (10, 28), (56, 186), (372, 1326)] := by
   decide +kernel
 
+/-- every generated tree has the order of its level, and no tree is generated twice (orders 1 … 4, and the meagre-rooted ones of order 5) -/
+theorem C07dae_levels_sound :
+    ((List.range 6).all fun k => ((DF.levels 5).getD k ⟨[], [], []⟩).ys.all (fun t => DF.rho t == k) &&
+                                 ((DF.levels 5).getD k ⟨[], [], []⟩).zs.all (fun t => DF.rho t == k)) = true ∧
+    (DF.yTreesUpTo 5).Nodup ∧ (DF.zTreesUpTo 4).Nodup := by
+  refine ⟨by decide +kernel, by decide +kernel, by decide +kernel⟩
+
 /-- the ODE trees are among them: a forest without fat vertices gets the ODE elementary weight and density -/
 example : (rodas4.phiForest ratFld (DF.tree false (DF.tree false .nil))).headD [] = rodas4.phi ratFld (.cons .nil .nil) := by decide +kernel
 
